@@ -151,6 +151,9 @@ func c19(c *Ctx) {
 	add, sub := "(*quic.rangeset[int64]).add[int64]", "(*quic.rangeset[int64]).sub[int64]"
 	lostAdd := Calls(add).ArgIs(0, "&$r.outunsent").ArgIs(1, "$1").ArgIs(2, "$2")
 	c.Guard(aol, lostAdd, "$4 == @quic.packetLost")
+	// the lost range itself (start,end as recorded) is what is re-added: a missing
+	// site is a failure here, not merely an unanchored rule.
+	c.Has(aol, c.QaUnder(lostAdd, "$4 == @quic.packetLost"))
 	ackAdd := Calls(add).ArgIs(0, "&$r.outacked")
 	c.Guard(aol, ackAdd, "$4 == @quic.packetAcked")
 	c.Has(aol, ackAdd.ArgIs(1, "$1").ArgIs(2, "$2"))
@@ -188,18 +191,36 @@ func c19(c *Ctx) {
 	c.Callers(hd, "(*quic.Conn).handleStreamFrame")
 
 	// ---- Read
+	// The buffer handed to pipe.copy is identified structurally (it is whatever
+	// value the copy call receives), not by the way the clamp is spelled:
+	// if-clamp, min(), a named size local all denote the same buffer.
 	rd := S + "Read"
-	c.QaGuardAny(rd, QaResultIs(1, "io.EOF"), []string{"$r.in.start == $r.insize"},
-		[]string{"$r.in.start + len(φ($0|$0[:($r.inset[0].end-$r.in.start)])) == $r.insize"})
 	cp := Calls("(*quic.pipe).copy")
+	var eofAlts [][]string
+	copiedEnd := map[string]bool{} // linear forms of in.start+len(buffer copied)
+	eofAlts = append(eofAlts, []string{"$r.in.start == $r.insize"})
+	if fn := c.P.Fn(rd); fn != nil {
+		for _, in := range cp.F(c.P, fn) {
+			if ci, ok := in.(ssa.CallInstruction); ok && len(BaselineArgs(ci.Common())) > 2 {
+				bt := Term(QaStripConv(BaselineArgs(ci.Common())[2]))
+				eofAlts = append(eofAlts, []string{"$r.in.start + len(" + bt + ") == $r.insize"})
+				copiedEnd[c.P.Q1LinOfSpec("$r.in.start + len("+bt+")")] = true
+			}
+		}
+	}
+	c.Q1GuardAny(rd, QaResultIs(1, "io.EOF"), "$r.in.start==$r.insize or $r.in.start+len(<the buffer passed to pipe.copy>)==$r.insize", eofAlts...)
 	c.Has(rd, cp.ArgIs(1, "$r.in.start"))
 	c.Reject(rd, cp, "len($r.inset) < 1")
 	c.Reject(rd, cp, "$r.inset[0].start != 0")
 	c.Reject(rd, cp, "$r.inset[0].end <= $r.in.start")
+	const avail = "$r.inset[0].end - $r.in.start"
 	c.QaClampedOrExempt(rd, cp, 2, "a slice ending at inset[0].end-in.start", func(v ssa.Value) bool {
-		return qaSliceHighIs(v, "($r.inset[0].end-$r.in.start)")
-	}, "$r.inset[0].end - $r.in.start >= len($0)")
-	c.Before(rd, cp, Calls("(*quic.pipe).discardBefore").ArgIs(1, "($r.in.start+len(φ($0|$0[:($r.inset[0].end-$r.in.start)])))"))
+		return qaSliceHighAtMost(c, v, avail)
+	}, avail+" >= len($0)")
+	c.Before(rd, cp, Calls("(*quic.pipe).discardBefore").Where("arg1=in.start+len(<the buffer passed to pipe.copy>)", func(in ssa.Instruction) bool {
+		ci, ok := in.(ssa.CallInstruction)
+		return ok && len(BaselineArgs(ci.Common())) > 1 && copiedEnd[Q1LinOf(BaselineArgs(ci.Common())[1])]
+	}))
 }
 
 // qaSameAsSliceLen: v is the length of the slice the function returns as its
@@ -224,10 +245,20 @@ func qaSameAsSliceLen(c *Ctx, fnName string, v ssa.Value) bool {
 	return ok
 }
 
-// qaSliceHighIs: v is x[:h] with h rendering as term.
-func qaSliceHighIs(v ssa.Value, term string) bool {
+// qaSliceHighAtMost: v is x[:h] (or x[0:h]) with h provably <= bound (a linear
+// expression in spec syntax) where the slice is taken: h is the bound itself,
+// min(…, bound), or an if/else merge / guarded value bounded by it.
+func qaSliceHighAtMost(c *Ctx, v ssa.Value, bound string) bool {
 	sl, ok := v.(*ssa.Slice)
-	return ok && sl.Low == nil && sl.High != nil && Term(sl.High) == term
+	if !ok || sl.High == nil {
+		return false
+	}
+	if sl.Low != nil {
+		if s, ok := QaConstSet(sl.Low); !ok || len(s) != 1 || !s[0] {
+			return false
+		}
+	}
+	return c.P.Q1ValueBounded(sl.High, sl, bound)
 }
 
 // qaSameOffsetAndTrim: in handleData the offset given to pipe.writeAt is the
